@@ -1,6 +1,7 @@
 /-
 What `Reconciler.sync` does with the delete-dependents finalizer: it is kept unless the Job is being
-deleted and no task listed in the status is found (`C13.finalizer_removed_only_when_gone`), in which
+deleted and none of `finalizerTasks` (the listed tasks that are found, the unrecorded tasks of the
+pod cache) is left (`C13.finalizer_removed_only_when_gone`), in which
 case the pass has issued no API call before the `Update`.  Core Lean only.
 -/
 import FurikoModel.Proofs.JobCtlInvWalk
@@ -19,6 +20,17 @@ theorem tasksForRefs_frame {s s' : Sys} (hf : Frame s s') (refs : List TaskRef) 
   funext ref
   unfold getTaskForRefConfirmed getTaskForRef liveGetTask
   rw [hf.podCache, hf.pods]
+
+theorem finalizerTasks_frame {s s' : Sys} (hf : Frame s s') (jo : JobObj) (rj : Job) :
+    finalizerTasks s' jo rj = finalizerTasks s jo rj := by
+  unfold finalizerTasks adoptUnrecordedTasks
+  rw [tasksForRefs_frame hf, hf.podCache]
+
+/-- `finalizerTasks` reads the Job only through the task list of its status -/
+theorem finalizerTasks_congr (s : Sys) (jo : JobObj) {rj rj' : Job} (h : rj'.status.tasks = rj.status.tasks) :
+    finalizerTasks s jo rj' = finalizerTasks s jo rj := by
+  unfold finalizerTasks adoptUnrecordedTasks
+  simp only [h]
 
 theorem syncJobStatusFromTaskRefs_tasks (s : Sys) (key : String) (rj : Job) :
     (syncJobStatusFromTaskRefs s key rj).2.status.tasks = rj.status.tasks := by
@@ -79,7 +91,7 @@ theorem sync_fin_not_deleted (s : Sys) (jo : JobObj) (h : jo.job.deletionTimesta
 in both "the result is `false`" cases the pass has only done bookkeeping so far -/
 theorem sync_fin_deleted (s : Sys) (jo : JobObj) (h : jo.job.deletionTimestamp.isSome = true) :
     ((sync s jo).2.2.1 = jo.finalizer ∧ (jo.finalizer = false → Frame s (sync s jo).1)) ∨
-    ((sync s jo).2.2.1 = false ∧ jo.finalizer = true ∧ tasksForRefsConfirmed s jo.job.status.tasks = [] ∧
+    ((sync s jo).2.2.1 = false ∧ jo.finalizer = true ∧ finalizerTasks s jo jo.job = [] ∧
       Frame s (sync s jo).1) := by
   unfold sync
   have hd : isDeleted jo.job = true := h
@@ -119,14 +131,14 @@ theorem sync_fin_deleted (s : Sys) (jo : JobObj) (h : jo.job.deletionTimestamp.i
         | false =>
           right
           have hgone := Furiko.Props.C13.finalizer_removed_only_when_gone s2 jo rj2 s4 rj3 hr
-          have hempty : tasksForRefsConfirmed s jo.job.status.tasks = [] := by
-            rw [← tasksForRefs_frame h2.1, ← ht2]; exact hgone.2
+          have hempty : finalizerTasks s jo jo.job = [] := by
+            rw [← finalizerTasks_frame h2.1, ← finalizerTasks_congr s2 jo ht2]; exact hgone.2.2.2
           refine ⟨by simp, by simp, hempty, ?_⟩
           -- no task found: `handleFinalizer` only recomputes the status
           unfold handleFinalizer at hr
           have hn : ¬ rj2.deletionTimestamp.isNone = true := by
             cases hx : rj2.deletionTimestamp <;> simp_all
-          simp only [hn, Bool.not_true, Bool.false_eq_true, ↓reduceIte, hgone.2, List.isEmpty_nil] at hr
+          simp only [hn, Bool.not_true, Bool.false_eq_true, ↓reduceIte, hgone.2.2.2, List.isEmpty_nil] at hr
           have h5 := (updateTaskRefStatus_spec s2 (jobKey jo) rj2 [] (by intro t ht; cases ht)).1
           generalize updateTaskRefStatus s2 (jobKey jo) rj2 [] = r5 at hr h5
           obtain ⟨s5, rj5⟩ := r5
@@ -137,7 +149,7 @@ theorem sync_fin_deleted (s : Sys) (jo : JobObj) (h : jo.job.deletionTimestamp.i
 /-- conversely: a pass on a Job that is being deleted, carries the finalizer and has no task left
 drops the finalizer and does nothing else -/
 theorem sync_deleted_no_tasks (s : Sys) (jo : JobObj) (h : jo.job.deletionTimestamp.isSome = true)
-    (hfin : jo.finalizer = true) (hnone : tasksForRefsConfirmed s jo.job.status.tasks = []) :
+    (hfin : jo.finalizer = true) (hnone : finalizerTasks s jo jo.job = []) :
     (sync s jo).2.2.1 = false ∧ Frame s (sync s jo).1 := by
   unfold sync
   have hd : isDeleted jo.job = true := h
@@ -154,8 +166,8 @@ theorem sync_deleted_no_tasks (s : Sys) (jo : JobObj) (h : jo.job.deletionTimest
     simp [this]
   rw [httl]
   simp only [hfin]
-  have hempty : tasksForRefsConfirmed s2 rj2.status.tasks = [] := by
-    rw [tasksForRefs_frame h2.1, ht2]; exact hnone
+  have hempty : finalizerTasks s2 jo rj2 = [] := by
+    rw [finalizerTasks_frame h2.1, finalizerTasks_congr s jo ht2]; exact hnone
   have hn : ¬ rj2.deletionTimestamp.isNone = true := by
     cases hx : rj2.deletionTimestamp <;> simp_all
   unfold handleFinalizer
